@@ -4,7 +4,7 @@
     Only statements, [exact], [Print Assumptions] and [Example]s live here. *)
 From Coq Require Import List NArith ZArith Bool Arith.
 From Atlas Require Import Base.Bytes Diff.Schema Diff.DiffModel Diff.DiffSqlite
-  Lex.DownModel Lex.DownProofs Lex.DownAlterModel Lex.DownAlterProofs
+  Lex.DownModel Lex.DownProofs Lex.DownAlterModel Lex.DownAlterProofs Lex.DownLayoutModel Lex.DownLayoutProofs
   Diff.DiffProofs Diff.DiffSqliteProofs
   Sqlite.PlanModel Sqlite.EngineModel Sqlite.InspectModel Sqlite.ReverseModel Sqlite.ReverseProofs
   Sqlite.ReverseDropProofs Sqlite.ReverseStaticProofs
@@ -476,6 +476,146 @@ Proof.
   intros c [<-|[<-|[<-|[]]]]; (split; [reflexivity|split; [reflexivity|]]);
     intros s Hs; vm_compute in Hs; intuition; subst; reflexivity.
 Qed.
+
+(** ** 4a. Down sections with an extreme layout (round 5)
+
+    Nothing in the statements above bounds the length of a statement, of a line or of the file, and
+    none of the down templates of sql/sqltool/tool.go looks at a length ([printf "%s;\n"],
+    [println], the [rollback] template function copy their argument whole).  The three statements
+    below make that explicit for the *concrete* readers the harness stage [layout] runs on single
+    lines of 64 KiB and more, CRLF line ends and trailing blank lines:
+
+    [C17_layout_readers_eq]: the linear readers of [DownLayoutModel] ([rev_append] instead of the
+    quadratic [List.rev]; the ones that are extracted and run on the real files) are the
+    specification readers, for every input.
+
+    [C17_downfile_any_length]: for every change list whose reverse statements are [line_closed]
+    (not empty, not starting with a newline or "--", no ";\n" inside: a carriage return, a blank
+    line inside, trailing blank lines and any length are all allowed) the down file of
+    golang-migrate and flyway and the text behind the marker of goose and dbmate are one and the
+    same text [d], and [line_scan_fast d = flat_map ReverseStmts (rev changes)]; the liquibase
+    rollback reader gives the same list.
+
+    [C17_line_closed_any_length]: the premise is insensitive to length: a closed statement padded
+    with any number [k] of any byte other than newline and '-' is closed and [k] bytes longer, so
+    the theorem covers statements beyond every bound.
+
+    [C17_downfile_goose_section] / [C17_downfile_dbmate_section]: where a tool finds the down part
+    of the one-file formats: the text behind the *first* marker line, provided no marker starts in
+    the up part ([no_early], decidable; it fails only if a [Cmd] or comment holds the marker line
+    itself). *)
+Theorem C17_layout_readers_eq :
+  (forall s, line_scan_fast s = line_scan s) /\
+  (forall s, lines_fast s = lines s) /\
+  (forall cmd, lq_cmd_ok_fast cmd = lq_cmd_ok cmd) /\
+  (forall now changes, liquibase_down_fast now changes = liquibase_down now changes).
+Proof.
+  exact (conj line_scan_fast_eq (conj lines_fast_eq (conj lq_cmd_ok_fast_eq liquibase_down_fast_eq))).
+Qed.
+Print Assumptions C17_layout_readers_eq.
+
+Theorem C17_downfile_any_length :
+  forall now changes,
+  (forall c, In c changes -> change_ok line_closed no_nl c) ->
+  (exists d,
+    golang_migrate_down changes = DownModel.Ok d /\ flyway_down changes = DownModel.Ok d /\
+    goose_file changes = DownModel.Ok (s_goose_up ++ up_body changes ++ s_goose_down ++ d) /\
+    dbmate_file changes = DownModel.Ok (s_dbmate_up ++ up_body changes ++ s_dbmate_down ++ d) /\
+    line_scan_fast d = flat_map ReverseStmts (List.rev changes)) /\
+  (no_nl now = true -> (forall c, In c changes -> lq_change_ok c) ->
+   liquibase_down_fast now changes = flat_map ReverseStmts (List.rev changes)).
+Proof.
+  intros now changes H. split; [now apply down_sections_line_scan|].
+  intros Hn Hl. rewrite liquibase_down_fast_eq. now apply liquibase_down_lemma.
+Qed.
+Print Assumptions C17_downfile_any_length.
+
+Theorem C17_line_closed_any_length :
+  forall s c k, line_closed s = true -> c <> 10%N -> c <> 45%N ->
+  line_closed (s ++ repeat c k) = true /\ length (s ++ repeat c k) = (length s + k)%nat.
+Proof. intros s c k H1 H2 H3. split; [now apply line_closed_pad|apply length_pad]. Qed.
+Print Assumptions C17_line_closed_any_length.
+
+Theorem C17_downfile_goose_section :
+  forall changes,
+  (forall c, In c changes -> change_ok line_closed no_nl c) ->
+  no_early s_goose_down (s_goose_up ++ up_body changes) = true ->
+  exists file, goose_file changes = DownModel.Ok file /\
+    goose_down_stmts file = Some (flat_map ReverseStmts (List.rev changes)).
+Proof. exact goose_down_section. Qed.
+Print Assumptions C17_downfile_goose_section.
+
+Theorem C17_downfile_dbmate_section :
+  forall changes,
+  (forall c, In c changes -> change_ok line_closed no_nl c) ->
+  no_early s_dbmate_down (s_dbmate_up ++ up_body changes) = true ->
+  exists file, dbmate_file changes = DownModel.Ok file /\
+    dbmate_down_stmts file = Some (flat_map ReverseStmts (List.rev changes)).
+Proof. exact dbmate_down_section. Qed.
+Print Assumptions C17_downfile_dbmate_section.
+
+(** Non-vacuity: a DROP TABLE whose reverse is a 70 000 byte single line ("CREATE TABLE t (" then
+    69 983 'x' then ")"), next to a CRLF statement with a trailing blank line and a short one. *)
+Definition ex_long : bytes :=
+  [67;82;69;65;84;69;32;84;65;66;76;69;32;116;32;40]%N ++ repeat 120%N (N.to_nat 69983) ++ [41%N].
+Definition ex_crlf : bytes := [67;49;13;10;120;13;10;10]%N.
+Definition ex_layout : list mchange :=
+  [ MChange [68;82;79;80]%N [99;49]%N (RList [ex_long; ex_crlf]);
+    MChange [67;50]%N [] (RStr [82;50]%N) ].
+Example ex_long_closed : line_closed ex_long = true.
+Proof. apply line_closed_long; try reflexivity; discriminate. Qed.
+Example ex_long_length : N.of_nat (length ex_long) = 70000%N.
+Proof.
+  unfold ex_long. rewrite !app_length, repeat_length. cbn [length].
+  rewrite !Nat2N.inj_add, N2Nat.id. reflexivity.
+Qed.
+Example ex_layout_closed : forall c, In c ex_layout -> forall s, In s (ReverseStmts c) -> line_closed s = true.
+Proof.
+  intros c Hc s Hs. unfold ex_layout in Hc. cbn [In] in Hc.
+  destruct Hc as [<-|[<-|[]]]; cbn [In ReverseStmts c_reverse] in Hs.
+  - destruct Hs as [<-|[<-|[]]]; [exact ex_long_closed|reflexivity].
+  - destruct Hs as [<-|[]]. reflexivity.
+Qed.
+Example ex_layout_ok : forall c, In c ex_layout -> change_ok line_closed no_nl c.
+Proof.
+  intros c Hc. split; [|now apply ex_layout_closed]. unfold ex_layout in Hc. cbn [In] in Hc.
+  destruct Hc as [<-|[<-|[]]]; intros _; reflexivity.
+Qed.
+Example ex_layout_lq_ok : forall c, In c ex_layout -> lq_change_ok c.
+Proof.
+  intros c Hc. split; [|split; [|now apply ex_layout_closed]]; unfold ex_layout in Hc; cbn [In] in Hc;
+    destruct Hc as [<-|[<-|[]]]; reflexivity.
+Qed.
+Example ex_layout_down : flat_map ReverseStmts (List.rev ex_layout) = [[82;50]%N; ex_long; ex_crlf].
+Proof. reflexivity. Qed.
+(** the premises hold for [ex_layout], whose first reverse statement is one line of 70 000 bytes, and
+    the readers return it whole, between the other two *)
+Example C17_downfile_any_length_nonvacuous :
+  (exists d, golang_migrate_down ex_layout = DownModel.Ok d /\ line_scan_fast d = [[82;50]%N; ex_long; ex_crlf]) /\
+  liquibase_down_fast [50%N] ex_layout = [[82;50]%N; ex_long; ex_crlf].
+Proof.
+  rewrite <- ex_layout_down.
+  destruct (down_sections_line_scan ex_layout ex_layout_ok) as (d & E & _ & _ & _ & S).
+  split; [exists d; split; [exact E|exact S]|].
+  rewrite liquibase_down_fast_eq.
+  apply liquibase_down_lemma; [reflexivity|exact ex_layout_lq_ok].
+Qed.
+(** the section finders on a small plan with a CRLF statement that ends in a blank line *)
+Example C17_downfile_sections_nonvacuous :
+  let cs := [ MChange [68;49]%N [99;49]%N (RList [ex_crlf; [82;49]%N]); MChange [67;50]%N [] (RStr [82;50]%N) ] in
+  no_early s_goose_down (s_goose_up ++ up_body cs) = true /\
+  no_early s_dbmate_down (s_dbmate_up ++ up_body cs) = true /\
+  match goose_file cs, dbmate_file cs with
+  | DownModel.Ok f, DownModel.Ok g =>
+      goose_down_stmts f = Some [[82;50]%N; ex_crlf; [82;49]%N] /\
+      dbmate_down_stmts g = Some [[82;50]%N; ex_crlf; [82;49]%N]
+  | _, _ => False
+  end.
+Proof. vm_compute. repeat split; reflexivity. Qed.
+
+Example C17_line_closed_any_length_nonvacuous :
+  line_closed ([68;82;79;80]%N ++ repeat 44%N (N.to_nat 100000)) = true.
+Proof. apply C17_line_closed_any_length; [reflexivity|discriminate|discriminate]. Qed.
 
 (** ** 2a. The flag and the reverse of one ALTER TABLE (sql/mysql, sql/postgres: alterTable)
 
